@@ -178,6 +178,8 @@ class C16(Check):
                     res = self._run_simplify(tr, eps, 1)
                 finally:
                     sim.distance_to_segment = old
+                if not table:
+                    raise core.Unsupported('douglas_peucker no longer measures distances through simplification.distance_to_segment: the structural harness does not apply')
                 ctx.reach()
                 out = [res.getObs(i) for i in range(res.size())]
                 kept = [k for k in range(n) if any(o is obs[k] for o in out)]
@@ -278,6 +280,8 @@ class C16(Check):
                     sim.distance_to_segment = old
                 st = stamps(res)
                 out = dict(kept=list(st))
+                if not used:
+                    return dict(violation=None, outputs=out)
                 if any(a >= b for a, b in zip(st, st[1:])) or not st or st[0] != 0 or st[-1] != n - 1:
                     return dict(violation='Douglas-Peucker on %d fixes (distances %r, eps %r) kept %r' % (n, used, eps, st), outputs=out)
                 for a, b in zip(st, st[1:]):
